@@ -75,6 +75,7 @@ FACTORS = [
     ("lazy", [None, 0, 1]),
     ("owner", [None, "1000:1000", "65534:100000", "self"]),
     ("packed", [None, 1]),
+    ("orph", [None, "64k", "2M"]),        # -E orphan_file_size= (only with the orphan_file feature)
     ("m", [None, "0", "1", "10.5", "50"]),
     ("L", [None, "lbl", "sixteen-chars-lbl", "a-label-longer-than-sixteen"]),
     ("r", [None, "1", "0", "rev0"]),
@@ -513,6 +514,8 @@ def argv_for(cfg, mke2fs, path, treedir, noaction=False):
         e.append("root_owner" if cfg["owner"] == "self" else "root_owner=" + cfg["owner"])
     if cfg.get("packed"):
         e.append("packed_meta_blocks=1")
+    if cfg.get("orph") and cfg.get("f:orphan_file") == "on":
+        e.append("orphan_file_size=" + cfg["orph"])
     if cfg.get("r") == "rev0":
         e.append("revision=0")
     a += ["-U", UUID, "-E", ",".join(e)]
